@@ -121,6 +121,12 @@ func c03CheckPattern(c *Ctx, p string, matchCase bool, cnt *c03Counters, alphabe
 	lower := automata.Determinise(ref.MaskNFA(m.effective, matchCase, !matchCase))
 	upper := automata.Determinise(ref.MaskNFA(m.effective, matchCase, true))
 	autos := []automata.Automaton{impl, lower, upper}
+	if sc := m.rule.Shortcut; sc != "" && isASCII(sc) {
+		// Match also looks for the lower-cased shortcut in the lower-cased URL:
+		// that is state of the matcher too, so strings that differ in it get
+		// their own product states (and witnesses replayed on Match)
+		autos = append(autos, automata.Fold{A: automata.NewKMP(sc)})
+	}
 	reported := false
 	accepting, rejecting := false, false
 	thorough := c.Thorough()
@@ -322,4 +328,13 @@ func init() {
 		c.Run.Assumption("for '||' under $match-case the reference is a sandwich: lower-case scheme/sub-domain characters required, upper-case tolerated")
 		c.Run.Assumption("regexp/syntax Parse+Simplify+Compile is what regexp.Compile runs; every product-state witness is replayed on the real *regexp.Regexp and on NetworkRule.Match")
 	})
+}
+
+func isASCII(s string) bool {
+	for i := 0; i < len(s); i++ {
+		if s[i] >= 0x80 {
+			return false
+		}
+	}
+	return true
 }
